@@ -189,7 +189,7 @@ impl<'a> SpecGen<'a> {
                 (json!({"type": "array", "items": items}), "array")
             }
             13 | 14 => { self.feat("primitive_component"); (self.primitive(), "prim") }
-            15 => match { let earlier: Vec<String> = self.names.iter().zip(self.kinds.iter()).filter(|(_, k)| **k == "alias").map(|(n, _)| n.clone()).collect(); if !earlier.is_empty() && self.rng.chance(1, 2) { let n: String = self.rng.pick(&earlier[..]).clone(); self.feat("alias_of_alias"); Some(r(&n)) } else { self.solid_ref() } } {
+            15 => match { let earlier: Vec<String> = self.names.iter().zip(self.kinds.iter()).filter(|(_, k)| **k == "alias").map(|(n, _)| n.clone()).collect(); if !earlier.is_empty() && self.rng.chance(1, 2) { let n: String = self.rng.pick(&earlier[..]).clone(); self.feat("alias_of_alias"); Some(r(&n)) } else if self.rng.chance(1, 3) { let enums: Vec<String> = self.names.iter().zip(self.kinds.iter()).filter(|(_, k)| **k == "enum").map(|(n, _)| n.clone()).collect(); if enums.is_empty() { self.solid_ref() } else { let n: String = self.rng.pick(&enums[..]).clone(); self.feat("alias_of_enum"); Some(r(&n)) } } else { self.solid_ref() } } {
                 Some(t) => { self.feat("alias_component"); let mut a = json!({"allOf": [t]}); if self.rng.chance(1, 2) { a["nullable"] = json!(true); self.feat("nullable_alias"); } (a, "alias") }
                 None => (self.object(0, false), "object"),
             },
@@ -498,6 +498,8 @@ impl<'a> SpecGen<'a> {
                     reqs.push(json!({name: []}));
                     self.feat(&format!("scheme:{name}"));
                 }
+                // the empty requirement: the API may also be called anonymously (first, last or in between)
+                if self.rng.chance(1, 6) { let at = self.rng.below(reqs.len() + 1); reqs.insert(at, json!({})); self.feat("anonymous_requirement"); }
                 doc["components"]["securitySchemes"] = Value::Object(schemes);
                 doc["security"] = Value::Array(reqs);
             }
